@@ -79,6 +79,16 @@ PROPS['C18'] = {
     'trusted': UNIT_TRUST,
 }
 
+PROPS['C13'] = {
+    'modules': ['OtterVerif.Props.C13'],
+    'engines': [unit('wheel', 300, 20000, chunk=25),
+                seq(['expiry', 'huge'], 200, 6000, lambda f: f['class'] == 'C13')],
+    'rule': 'UNIT-wheel: random Add/Delete/re-Add/DeleteExpired sequences (deadlines across all five levels and their boundaries, deadlines behind the clock, jumps over several revolutions, negative/huge clock origins); '
+            'the model must reproduce every bucket in link order and the expired list; the C13 oracle (nothing scheduled is overdue by a full tick, nothing expired early) is evaluated on every sweep. '
+            'SEQ: after every CleanUp no entry with deadline + 2^30 < now is physically present. distinct = distinct transcripts with >= 10 lines',
+    'trusted': UNIT_TRUST + SEQ_TRUST[1:],
+}
+
 for _p in PROPS.values():
     _p.setdefault('rule', SEQ_RULE)
     _p.setdefault('trusted', SEQ_TRUST)
